@@ -7,7 +7,7 @@ CONSTANTS
   CfgSet = {}
   TableSet = {"A", "B"}
   BuilderSet = {"std", "plus", "minus", "excl", "half", "boost"}
-  AnswerSet <- ScenAnswers
+  AnswerSet <- WiredAnswers
   Headers = {1, 2}
   MaxRounds = 1
   Keys <- ScenKeys
@@ -17,6 +17,6 @@ CONSTANTS
   TickWeight = 2
   DeliverWeight = 3
   StartWeight = 2
-  Family = "fake"
+  Family = "wired"
 INVARIANTS Emit WinnerIsArgmax ProvidersOfferedWinner NoWinnerIffNone CacheRight
 CHECK_DEADLOCK FALSE
